@@ -2,12 +2,11 @@ import collections.abc
 from collections.abc import Mapping, Set
 from contextlib import AbstractContextManager, contextmanager, nullcontext
 from dataclasses import dataclass, replace
-from keyword import iskeyword
 from typing import Any, Callable, Optional
 
 from ...code_tools.cascade_namespace import BuiltinCascadeNamespace, CascadeNamespace
 from ...code_tools.code_builder import CodeBuilder
-from ...code_tools.utils import get_literal_expr, get_literal_from_factory
+from ...code_tools.utils import can_be_keyword_arg, get_literal_expr, get_literal_from_factory
 from ...common import Loader
 from ...compat import CompatExceptionGroup
 from ...definitions import DebugTrail
@@ -330,10 +329,10 @@ class BuiltinModelLoaderGen(ModelLoaderGen):
 
                 value = state.v_field(field)
                 if param.kind == ParamKind.KW_ONLY or has_skipped_params:
-                    if iskeyword(param.name) or param.name == "__debug__":  # e.g. TypedDict key `from`
-                        constructor_builder(f"**{{{param.name!r}: {value}}},")
-                    else:
+                    if can_be_keyword_arg(param.name):
                         constructor_builder(f"{param.name}={value},")
+                    else:
+                        constructor_builder(f"**{{{param.name!r}: {value}}},")
                 elif param.kind == ParamKind.POS_ONLY and has_skipped_params:
                     raise ValueError(
                         "Can not generate consistent constructor call,"
